@@ -830,7 +830,9 @@ func processStructLiteralProvider(fset *token.FileSet, typeName *types.TypeName)
 		i := len(provider.Args) - 1
 		for j := 0; j < i; j++ {
 			if types.Identical(provider.Args[i].Type, provider.Args[j].Type) {
-				return nil, []error{notePosition(fset.Position(pos), fmt.Errorf("provider struct has multiple fields of type %s", types.TypeString(provider.Args[j].Type, nil)))}
+				// Positioned by the caller, where the literal is written: the
+				// struct type may be declared outside the user's sources.
+				return nil, []error{fmt.Errorf("provider struct %s has multiple fields of type %s", typeName.Name(), types.TypeString(provider.Args[j].Type, nil))}
 			}
 		}
 	}
@@ -912,8 +914,9 @@ func processStructProvider(fset *token.FileSet, info *types.Info, call *ast.Call
 	for i := 0; i < len(provider.Args); i++ {
 		for j := 0; j < i; j++ {
 			if types.Identical(provider.Args[i].Type, provider.Args[j].Type) {
-				f := st.Field(j)
-				return nil, notePosition(fset.Position(f.Pos()), fmt.Errorf("provider struct has multiple fields of type %s", types.TypeString(provider.Args[j].Type, nil)))
+				// Reported at the wire.Struct call: the struct type may be declared
+				// outside the user's sources.
+				return nil, notePosition(fset.Position(call.Pos()), fmt.Errorf("provider struct has multiple fields of type %s (%s and %s)", types.TypeString(provider.Args[j].Type, nil), provider.Args[j].FieldName, provider.Args[i].FieldName))
 			}
 		}
 	}
